@@ -249,7 +249,8 @@ impl Prop for C18 {
         tier.pick(40_000, 1_500_000)
     }
     fn strategy(_tier: Tier) -> BoxedStrategy<Case> {
-        (any::<u32>(), proptest::collection::vec(spec_strategy(), 0..=5)).prop_map(|(flags, specs)| Case { flags, specs }).boxed()
+        // 1 case in 400 has hundreds of specs
+        (any::<u32>(), prop_oneof![399 => proptest::collection::vec(spec_strategy(), 0..=5), 1 => proptest::collection::vec(spec_strategy(), 257..=300)]).prop_map(|(flags, specs)| Case { flags, specs }).boxed()
     }
     fn enumerate(_tier: Tier, shard: u64, nshards: u64, f: &mut dyn FnMut(Case) -> bool) {
         let all_s: Vec<usize> = (0..NSTR).collect();
@@ -408,6 +409,7 @@ impl Prop for C18 {
         cx.label_if(ext_then_more, "extended-field-followed-by-another");
         cx.label_if(blank_inside, "all-absent-or-name-only-spec-in-a-list");
         cx.label_if(case.specs.iter().any(|s| !s.extended()), "short-form");
+        cx.label_if(case.specs.len() > 255, ">255-specs");
         cx.label_if(case.specs.iter().any(|s| s.extended()), "extended-form");
         cx.label_if(case.specs.iter().any(|s| s.extended() && s.strings[FIRST_EXT_STR..].iter().all(|x| x.is_none()) && s.typed[..14].iter().all(|t| t.is_none())), "extended-only-in-last-flag-byte");
         cx.label_if(case.specs.iter().any(|s| s.typed[3..6].iter().any(|t| matches!(t, Some(b) if f32::from_bits(*b).is_nan()))), "nan-payload");
